@@ -149,6 +149,9 @@ def run_tlc(module, cfg_text, workdir, env=None, workers=16, timeout=3600, extra
     shutil.rmtree(meta, ignore_errors=True)
     # short runs (trace batches): many JVMs side by side, so no C2 compiler threads and a serial collector
     jvm = ["-XX:+UseSerialGC", "-XX:TieredStopAtLevel=1", "-Xmx3g"] if short else ["-XX:+UseParallelGC", "-Xmx" + heap]
+    jtmp = os.path.join(workdir, "jtmp")          # TLC unpacks its module jars into java.io.tmpdir on every start: keep that out of /tmp
+    os.makedirs(jtmp, exist_ok=True)
+    jvm = jvm + ["-Djava.io.tmpdir=" + jtmp]
     cmd = ["java"] + jvm + ["-Xss16m", "-cp", TLA_CP, "tlc2.TLC", "-workers", str(workers), "-metadir", meta,
                              "-noGenerateSpecTE", "-config", cfg_path]
     if coverage:
@@ -170,6 +173,7 @@ def run_tlc(module, cfg_text, workdir, env=None, workers=16, timeout=3600, extra
             raise Machinery(f"TLC timed out after {timeout}s on {module}")
     wall = time.time() - t0
     shutil.rmtree(meta, ignore_errors=True)
+    shutil.rmtree(jtmp, ignore_errors=True)
     with open(os.path.join(workdir, module + ".tlc.out"), "w") as f:
         f.write(out)
     m = None
